@@ -73,6 +73,9 @@ func init() {
 		p.expectPanic, _ = concStr(args[0])
 		return nil
 	})
+	vreg("vTier", func(p *Path, th *thread, caller *frame, pos token.Pos, fn *ssa.Function, args []Value) Value {
+		return BV(64, uint64(p.ex.tier))
+	})
 	vreg("vSymbolic", func(p *Path, th *thread, caller *frame, pos token.Pos, fn *ssa.Function, args []Value) Value {
 		return tTrue
 	})
